@@ -10,6 +10,7 @@ from vf import core, graph
 
 META = {
     'property_id': 'C07',
+    'confirm_by_replay': True,   # bin/check re-executes the stimulus of every violation before it is reported
     'level': 'model_checking',
     'technique': 'TLA+ spec of the controller side of partition failover (Failover.tla) checked exhaustively by TLC; '
                  'every transition of a bounded instance, simulated deeper behaviours and the counterexamples of the '
